@@ -4,9 +4,10 @@ Spec: models/Trace_Enc FreshEv (state: all secret random values seen so far in t
 (Encrypt.tla KeyLen / BlockLen), no value repeated in any role, none constant, the session key never in the output,
 prefix repeat placement.
   The history: repeated encryption of the identical message to the identical recipient (RSA, X25519, NIST ECDH, passphrase)
-  for several ciphers, mixed with protect() of keys; salts, IVs and ephemeral points are read from the exported packets,
+  for several ciphers, mixed with protect() of keys and with re-seeding of Python's `random` module to a constant; salts, IVs and ephemeral points are read from the exported packets,
   session keys and prefixes come from the independent decryptor of C03 (validated there by TLC).
 """
+import random as _random
 import warnings
 
 from .. import build, enc, keys as K
@@ -55,6 +56,10 @@ def run(ctx):
         for ci, cipher in enumerate(ciphers if not ctx.quick else ciphers[:3]):
             for rep in range(reps if ci == 0 else max(3, reps // 4)):
                 m = pgpy.PGPMessage.new(msg_bytes, compression=CompressionAlgorithm.Uncompressed, format='b')
+                if rep % 2:
+                    # environment step: the application re-seeds Python's non-cryptographic generator to the same constant before
+                    # every other operation; secret values must not be a function of that state
+                    _random.seed(4880)
                 try:
                     if rk == 'pw':
                         if rep > (3 if ctx.quick else 12):
@@ -85,6 +90,7 @@ def run(ctx):
             kk = pgpy.PGPKey.from_blob(bytes(W.own['cv25519']))[0]
             pc = [SymmetricKeyAlgorithm.AES256, SymmetricKeyAlgorithm.CAST5, SymmetricKeyAlgorithm.AES128][ci % 3]
             for rep in range(2 if ctx.quick else 6):
+                _random.seed(4880)
                 if rep:
                     with kk.unlock('pp'):
                         kk.protect('pp', pc, HashAlgorithm.SHA256)
